@@ -292,6 +292,28 @@ def invoke(fn, args):
     return fn(*pos, **kw)
 
 
+DIVISION_OPERATORS = {'__mod__', '__rmod__', '__imod__', '__truediv__', '__rtruediv__', '__itruediv__',
+                      '__div__', '__rdiv__', '__idiv__'}
+
+
+def documented_raises(fn, cls=None):
+    """Exception class names that the docstring of a callable documents in `:raises:` lines.
+    The property says out-of-range arguments are rejected "with TypeError or ValueError *as
+    documented*": an exception class the function itself documents (e.g. ZeroDivisionError for
+    a zero divisor of an Angle, or for degenerate curve-fitting data) is a documented rejection."""
+    import re as _re
+    docs = [getattr(fn, '__doc__', None) or '']
+    if cls is not None and fn is cls:
+        docs.append(getattr(getattr(cls, '__init__', None), '__doc__', None) or '')
+        docs.append(getattr(getattr(cls, 'set', None), '__doc__', None) or '')
+    out = set()
+    for d in docs:
+        for line in d.split('\n'):
+            if ':raises' in line:
+                out.update(_re.findall(r'\b([A-Z][A-Za-z]*Error)\b', line))
+    return out
+
+
 def finite(v, depth=0):
     if isinstance(v, float):
         return math.isfinite(v)
@@ -752,7 +774,12 @@ class Checker(object):
                     self.pred('scalar_fields', okv, dict(inp, sig='field:' + fld), '%s.%s = %r' % (type(o).__name__, fld, v), 'skeleton')
         # ---- totality
         if record:
-            if exc is not None:
+            if exc is not None and tag.startswith('boundary:') and \
+                    type(exc).__name__ in documented_raises(r[0], r[2]) - {'TypeError'}:
+                # a boundary input refused with the exception class the docstring documents for it
+                # (degenerate data, zero divisor, ...) is a documented rejection, not a totality failure
+                self.pred('boundary_rejected_as_documented', True, dict(inp, sig=tag + '/documented:' + type(exc).__name__), repr(exc), 'total/' + tag)
+            elif exc is not None:
                 self.pred('total_in_domain', False, dict(inp, sig=tag + '/raise:' + type(exc).__name__), repr(exc), 'total/' + tag)
             else:
                 okf = finite(res)
@@ -868,7 +895,11 @@ class Checker(object):
         except (TypeError, ValueError) as e:
             out = 'rejected'
         except Exception as e:   # noqa
-            out = 'other:' + type(e).__name__
+            if type(e).__name__ in documented_raises(r[0], r[2]) or (
+                    isinstance(e, ZeroDivisionError) and f['name'] in DIVISION_OPERATORS):
+                out = 'rejected'          # the class the function's own docstring (or Python's operator protocol, C03) documents
+            else:
+                out = 'other:' + type(e).__name__
         self.pred('out_of_range_rejected', out in ('rejected', 'value'), dict(inp, sig='%s/%s' % (tag, out)), out, 'out_of_range')
 
     # ---- ill-typed arguments
